@@ -355,6 +355,8 @@ def body_auto(case, ctx):
         return
     ctx.check(isinstance(res, tuple) and len(res) == 2, "returns (affine, chart_index)")
     aff, idx = res
+    ctx.check(np.ndim(idx) == 0 and float(idx) == int(idx), "chart index is an integer",
+              got=idx)
     idx = int(idx)
     ctx.check(idx in good, "the chosen chart contains every point", idx=idx, good=good, x=x)
     if col:
@@ -524,18 +526,28 @@ def intersect_case(draw):
     else:
         s1 = draw(gen.shapes(max_rank=2, max_side=2))
         s2 = draw(gen.shapes(max_rank=2 if len(s1) < 2 else 1, max_side=2))
-    # pairwise needs every A transverse to every B: one common frame S, the A's are
-    # spanned by the first k1 frame vectors, the B's by the last k2, each with its own basis
+    # one common frame S (or, elementwise, maybe one per element); A_t is spanned by the first
+    # k1 frame vectors tilted by a small X_t towards the others, B_u by the last k2 tilted by
+    # Y_u: all pairs stay transverse (tilts <= 0.15), the subspaces differ from each other
     S = draw(gen.wellcond_matrix(N, maxfactor=2.0))
-    GA = [draw(gen.wellcond_matrix(k1, maxfactor=2.0)) for _ in range(gen.prod(s1))]
-    GB = [draw(gen.wellcond_matrix(k2, maxfactor=2.0)) for _ in range(gen.prod(s2))]
+    c1, c2 = gen.prod(s1), gen.prod(s2)
+    GA = [draw(gen.wellcond_matrix(k1, maxfactor=2.0)) for _ in range(c1)]
+    GB = [draw(gen.wellcond_matrix(k2, maxfactor=2.0)) for _ in range(c2)]
+    tilt = draw(st.sampled_from([True, True, False]))
+
+    def tilts(rows, cols):
+        if not tilt:
+            return [[0.0] * cols for _ in range(rows)]
+        return [[draw(fl(-0.15, 0.15)) for _ in range(cols)] for _ in range(rows)]
+    XA = [tilts(k1, N - k1) for _ in range(c1)]
+    YB = [tilts(k2, N - k2) for _ in range(c2)]
     if mode == "elementwise" and draw(st.booleans()):
         # elementwise: a different frame for every element
-        Ss = [draw(gen.wellcond_matrix(N, maxfactor=2.0)) for _ in range(gen.prod(s1))]
+        Ss = [draw(gen.wellcond_matrix(N, maxfactor=2.0)) for _ in range(c1)]
     else:
         Ss = None
     return dict(n=n, k1=k1, k2=k2, mode=mode, s1=s1, s2=s2, S=S, Ss=Ss, GA=GA, GB=GB,
-                other_as_array=draw(st.booleans()))
+                XA=XA, YB=YB, tilt=tilt, other_as_array=draw(st.booleans()))
 
 
 def body_intersect(case, ctx):
@@ -550,10 +562,12 @@ def body_intersect(case, ctx):
     B = np.zeros((c2, k2, N))
     for t in range(c1):
         F = Ss[t] if Ss else S
-        A[t] = np.array(case["GA"][t], dtype=float) @ F[:k1]
+        X = np.array(case["XA"][t], dtype=float).reshape(k1, N - k1)
+        A[t] = np.array(case["GA"][t], dtype=float) @ (F[:k1] + X @ F[k1:])
     for t in range(c2):
         F = Ss[t] if Ss else S
-        B[t] = np.array(case["GB"][t], dtype=float) @ F[N - k2:]
+        Y = np.array(case["YB"][t], dtype=float).reshape(k2, N - k2)
+        B[t] = np.array(case["GB"][t], dtype=float) @ (F[N - k2:] + Y @ F[:N - k2])
     A = A.reshape(s1 + (k1, N))
     B = B.reshape(s2 + (k2, N))
     _labels(ctx, n, s1)
@@ -564,6 +578,7 @@ def body_intersect(case, ctx):
         ctx.label("pairwise")
     if Ss:
         ctx.label("frame-per-element")
+    ctx.label("tilted" if case["tilt"] else "coordinate-subspaces")
     SA = projective.Subspace(A.copy())
     other = B.copy() if case["other_as_array"] else projective.Subspace(B.copy())
     R = SA.intersect(other, broadcast=mode)
@@ -581,16 +596,19 @@ def body_intersect(case, ctx):
         a, b, r = A[ia], B[ib], D[idx]
         t = int(np.ravel_multi_index(ia, s1)) if s1 else 0
         F = Ss[t] if Ss else S
-        true = F[N - k2:k1]                       # the d frame vectors common to both
-        condn = np.linalg.cond(F) * np.linalg.cond(np.array(case["GA"][t], dtype=float))
-        tol = 1e-12 * max(condn, 1.0) ** 2
+        sv = np.linalg.svd(np.vstack([a / np.linalg.norm(a), b / np.linalg.norm(b)]),
+                           compute_uv=False)
+        condn = (sv[0] / sv[N - 1]) * max(np.linalg.cond(a), np.linalg.cond(b))
+        tol = 1e-12 * max(condn, 1.0)
         ctx.check(np.all(np.isfinite(r)), "finite", r=r)
         ctx.small("rows of the intersection lie in span(self)", LA.span_defect(r, a), tol)
         ctx.small("rows of the intersection lie in span(other)", LA.span_defect(r, b), tol)
         ctx.check(LA.min_rel_sv(r) > 1e-7, "rows of the intersection are independent",
                   sv=LA.min_rel_sv(r), r=r)
-        ctx.small("equals the intersection known by construction",
-                  LA.same_span_defect(r, true), tol)
+        if not case["tilt"]:
+            true = F[N - k2:k1]                   # the d frame vectors common to both
+            ctx.small("equals the intersection known by construction",
+                      LA.same_span_defect(r, true), tol * np.linalg.cond(F))
 
 
 # ---------------------------------------------------------------------------
